@@ -305,6 +305,11 @@ fn emit_expression_ctx(
                 out.push(json!({"CNT?": s.resolve_divert_target(name, ctx)}))
             } else if context.is_some_and(|ctx| ctx.top_flow_names.contains(name)) {
                 out.push(json!({"CNT?": name}))
+            } else if let Some(path) = scope
+                .zip(context)
+                .and_then(|(s, ctx)| s.resolve_knot_level_label(name, ctx))
+            {
+                out.push(json!({"CNT?": path}))
             } else {
                 out.push(json!({"VAR?": name}))
             }
